@@ -54,7 +54,7 @@ class Q:
 
 def run(chk):
     binary, tbl = qtylib.session()
-    proved = chk.prove("Props.C21", THEOREMS, ["theories/Props/C21.vo", "theories/Qty/Prelude.vo"],
+    proved = chk.prove("Props.C21", THEOREMS, ["theories/Props/C21.vo", "theories/Qty/Prelude.vo", "theories/Qty/DisplayExec.vo", "theories/Qty/PreludeF.vo"],
                        extra_obligations=["Qty.Prelude.prelude_wf", "Qty.Prelude.prelude_exact_int",
                                           "Qty.Prelude.prelude_exact_pos"])
     chk.trusted += [
